@@ -9,7 +9,7 @@ from mc import core, ghost
 
 PROPERTY = 'C04'
 LEVEL = 'model_checking'
-RULE = ('every program = (0-3 handlers of event e with distinct priorities drawn from 18 shapes: return v / return 0 / return None / raise / return a nested Value / '
+RULE = ('every program = (0-3 handlers of event e with distinct priorities drawn from 19 shapes: return v / return 0 / return None / raise / return a nested Value / '
         'generator yielding 0-2 values (None or not) / generator raising at step 0 or 1) x (success, failure, notify, '
         'success_channels) x (optional nested event fired by a handler | the event fired twice: after the first settled / both in flight); each program executed once, driven by tick() to '
         'quiescence; non-trivial = at least two different handler shapes or a raising/generator handler; distinct = distinct program')
@@ -42,10 +42,11 @@ def shapes(i):
         ('G0v', ('gen', [('y', 0), ('y', b + 5)])),
         ('XB', [('raiseb',)]),               # raises a BaseException that is not an Exception (isolated like any other)
         ('GXB1', ('gen', [('y', None), ('raiseb',)])),
+        ('RVV', [('retfire', 'g2')]),        # returns the Value of an event whose handler in turn returns the Value of a third event
     ]
 
 
-NSH = 18
+NSH = 19
 FLAGS = [dict(success=s, failure=f, notify=n, success_channels=sc)
          for s in (False, True) for f in (False, True) for n in (False, True) for sc in (None, ('other',))]
 NESTED_SHAPES = [0, 2, 5, 10]   # R, X, Gv, GX1 for the nested event's handlers
@@ -106,13 +107,14 @@ def build(program):
     handlers.append(('s0', 's', 0, [('ret', 99)]))
     handlers.append(('gok0', 'gok', 0, [('ret', 71)]))
     handlers.append(('gx0', 'gx', 0, [('raise',)]))
+    handlers.append(('g20', 'g2', 0, [('retfire', 'gok')]))
     return handlers
 
 
 def execute(program):
     hs, fi, nested = program
     # named observers only, so that an event without handlers really has none
-    ghost.World.observe_names = ['e_success', 'e_failure', 'f_success', 'f_failure', 'exception', 'e_value_changed', 'gok', 'gx']
+    ghost.World.observe_names = ['e_success', 'e_failure', 'f_success', 'f_failure', 'exception', 'e_value_changed', 'gok', 'gx', 'g2']
     try:
         hl = build(program)
         w = ghost.World(hl)
@@ -150,12 +152,17 @@ def judge_event(w, eid, hids, flags, shapes_of, bad, tag):
 
     def resolve(v):
         if isinstance(v, tuple) and v and v[0] == 'NESTED':
-            inner = [x[3] for x in log if x[0] == 'val' and x[2] == v[1]]
+            inner = [resolve(x[3]) for x in log if x[0] == 'val' and x[2] == v[1]]
             return None if not inner else (inner[0] if len(inner) == 1 else inner)
         return v
     vals = [resolve(v) for v in vals]
     exp = None if not vals else (vals[0] if len(vals) == 1 else vals)
     got = ghost.snapv(val.value)
+    raw = val.value
+    if hasattr(raw, 'getValue') and hasattr(raw, 'errors'):
+        # everything has settled: .value gives the result, however deep the chain of returned Values was - never a Value object
+        # (a Value next to other results in a list is not judged, see below)
+        bad.append((tag + 'value-unresolved', '.value of %s is a Value object instead of the result %r' % (tag, got)))
     if nested and len(vals) > 1:
         pass    # a nested (future) Value next to other results: how they combine is not stated by the property: not judged
     elif got != exp:
@@ -256,7 +263,7 @@ def _work(part, nparts, payload):
         bad = judge(program, w, e, s, quiescent, crashed)
         st.outcome(tuple(x for x in w.log if x[0] in ('obs', 'val')))
         hs = program[0]
-        if any(si in (12, 13) for si in hs):
+        if any(si in (12, 13, 18) for si in hs):
             st.counters['programs_returning_a_nested_value'] += 1
         if len(set(hs)) > 1 or any(si >= 2 for si in hs):
             st.interesting(program)
